@@ -115,8 +115,8 @@ def Stored (h : Heap H) (p : Id) (k : String) (i : Option Nat) (c : Id) : Prop :
 
 def Unstored (h : Heap H) (c : Id) : Prop := ∀ p k i, ¬ Stored h p k i c
 
-/-- the association list behaves like a dict: every entry is the one `d[k]` finds -/
-def KeysUnique (args : List (String × Arg)) : Prop := ∀ k a, (k, a) ∈ args → getKey k args = some a
+/-- the association list is a dict: no key occurs twice -/
+def KeysUnique (args : List (String × Arg)) : Prop := (args.map Prod.fst).Nodup
 
 def ItemsDistinct (items : List Item) : Prop :=
   items.Pairwise (fun a b => ∀ c, a = .node c → b ≠ .node c)
@@ -233,6 +233,37 @@ def opSet (fuel : Nat) (h : Heap H) (self : Id) (k : String) (v : Value) (index 
     Option (Heap H) :=
   match inval fuel h (some self) with
   | some h1 => setCore h1 self k v index overwrite
+  | none => none
+
+/-! ### `set(k, None, index)` with a NEGATIVE index `-back` (accepted by `seq_get` / `list.pop`)
+
+  As written in the source, the renumbering loop `for v in expressions[index:]` then runs over the LAST `back` elements of
+  the shortened list instead of the elements after the removed one (`negative_index_breaks_links` in Properties/C08).
+  `normalised = true` models the repaired code (`index += len(expressions)` first). -/
+
+def setNoneNegCore (h : Heap H) (self : Id) (k : String) (back : Nat) (normalised : Bool) : Option (Heap H) :=
+  match getKey k (h self).args with
+  | some (.many items) =>
+    if back = 0 ∨ items.length < back then some h
+    else
+      let pos := items.length - back
+      if normalised then setCore h self k .none (some pos) true
+      else
+        match items[pos]? with
+        | none => some h
+        | some (.leaf .none) => some h
+        | some _ =>
+          let items' := items.take pos ++ items.drop (pos + 1)
+          match decrIdx h (items'.drop (items'.length - back)) with
+          | some h' => some (setArgs h' self (setKey k (.many items') (h self).args))
+          | none => none
+  | none => some h
+  | some (.leaf s) => if truthy s then none else some h
+  | some (.one _) => none
+
+def opSetNoneNeg (fuel : Nat) (h : Heap H) (self : Id) (k : String) (back : Nat) (normalised : Bool) : Option (Heap H) :=
+  match inval fuel h (some self) with
+  | some h1 => setNoneNegCore h1 self k back normalised
   | none => none
 
 /-! ### `append` -/
@@ -449,6 +480,231 @@ def copyNode : Nat → Heap H → Nat → Id → Option (Heap H × Nat × Id)
 def opCopy (fuel : Nat) (h : Heap H) (n : Id) (base : Nat) : Option (Heap H × Nat × Id) :=
   copyNode fuel h base n
 
+/-! ### `transform(fun, copy=False)` and `replace_children(node, fun)` — parametric in the user function
+
+  A user function may edit the heap, allocate fresh cells from the counter `nx`, and returns what Python's `fun(node)`
+  returns (`None`, a node, a list, a scalar). -/
+
+abbrev UserFun (H : Type) := Heap H → Nat → Id → Option (Heap H × Nat × Value)
+
+/-- one iteration of the `for node in root.dfs(prune=…)` loop of `transform` for a non-first node: the back pointers are read
+    BEFORE `fun` runs; a different result is installed with `parent.set(arg_key, new_node, index)` and prunes the walk -/
+def transformStep (fuel : Nat) (fn : UserFun H) (h : Heap H) (nx : Nat) (node : Id) : Option (Heap H × Nat × Bool) :=
+  let par := (h node).parent
+  let key := (h node).argKey
+  let idx := (h node).index
+  match fn h nx node with
+  | none => none
+  | some (h1, nx1, v) =>
+    if v = .node node then some (h1, nx1, true)
+    else
+      match par, key with
+      | some p, some k =>
+        match opSet fuel h1 p k v idx true with
+        | some h2 => some (h2, nx1, false)
+        | none => none
+      | _, _ => some (h1, nx1, false)
+
+/-- the explicit DFS stack of `dfs` (head = top); children are pushed in reverse, i.e. visited in arg order -/
+def transformLoop (fuel : Nat) (fn : UserFun H) : Nat → Heap H → Nat → List Id → Option (Heap H × Nat)
+  | 0, _, _, _ => none
+  | _ + 1, h, nx, [] => some (h, nx)
+  | f + 1, h, nx, node :: st =>
+    match transformStep fuel fn h nx node with
+    | none => none
+    | some (h2, nx2, descend) =>
+      transformLoop fuel fn f h2 nx2 (if descend then childIds (h2 node).args ++ st else st)
+
+/-- `root.transform(fun, copy=False)`: the first node's result becomes the returned root and is never installed anywhere -/
+def opTransform (fuel : Nat) (fn : UserFun H) (h : Heap H) (nx : Nat) (root : Id) : Option (Heap H × Nat × Value) :=
+  match fn h nx root with
+  | none => none
+  | some (h1, nx1, v) =>
+    if v = .node root then
+      match transformLoop fuel fn fuel h1 nx1 (childIds (h1 root).args) with
+      | some (h2, nx2) => some (h2, nx2, v)
+      | none => none
+    else
+      -- the walk is pruned at once; `assert root` fails for a falsy result
+      match v with
+      | .none => none
+      | .list [] => none
+      | .leaf s => if truthy s then some (h1, nx1, v) else none
+      | _ => some (h1, nx1, v)
+
+/-- `ensure_collection(fun(cn))` as list items -/
+def collect : Value → List Item
+  | .none => []
+  | .leaf s => [.leaf s]
+  | .node c => [.node c]
+  | .list vs => vs
+
+/-- the inner loop of `replace_children` over the (snapshot of the) child nodes of one argument -/
+def gatherItems (fn : UserFun H) : Heap H → Nat → List Item → Option (Heap H × Nat × List Item)
+  | h, nx, [] => some (h, nx, [])
+  | h, nx, .leaf s :: r =>
+    match gatherItems fn h nx r with
+    | some (h', nx', r') => some (h', nx', .leaf s :: r')
+    | none => none
+  | h, nx, .node c :: r =>
+    match fn h nx c with
+    | none => none
+    | some (h1, nx1, v) =>
+      match gatherItems fn h1 nx1 r with
+      | some (h', nx', r') => some (h', nx', collect v ++ r')
+      | none => none
+
+/-- `seq_get(new_child_nodes, 0)` as a value for `set` -/
+def firstValue : List Item → Value
+  | [] => .none
+  | .node c :: _ => .node c
+  | .leaf .none :: _ => .none
+  | .leaf s :: _ => .leaf s
+
+/-- `child_nodes = v if is_list_arg else [v]` -/
+def argItems : Arg → List Item
+  | .many items => items
+  | .one c => [.node c]
+  | .leaf s => [.leaf s]
+
+/-- what is written back: the new list for a list argument, `seq_get(new_child_nodes, 0)` otherwise -/
+def argValue (a : Arg) (new : List Item) : Value :=
+  match a with
+  | .many _ => .list new
+  | _ => firstValue new
+
+def replaceChildrenLoop (fuel : Nat) (fn : UserFun H) (self : Id) :
+    Heap H → Nat → List (String × Arg) → Option (Heap H × Nat)
+  | h, nx, [] => some (h, nx)
+  | h, nx, (k, a) :: r =>
+    match gatherItems fn h nx (argItems a) with
+    | none => none
+    | some (h1, nx1, new) =>
+      match opSet fuel h1 self k (argValue a new) none true with
+      | some h2 => replaceChildrenLoop fuel fn self h2 nx1 r
+      | none => none
+
+/-- `replace_children(self, fun)` — iterates over `tuple(self.args.items())`, a snapshot -/
+def opReplaceChildren (fuel : Nat) (fn : UserFun H) (h : Heap H) (nx : Nat) (self : Id) : Option (Heap H × Nat) :=
+  replaceChildrenLoop fuel fn self h nx (h self).args
+
+/-! ### a few concrete user functions (used by the driver and for non-vacuity) -/
+
+/-- `Literal()` then `.set("this", txt)`, `.set("is_string", False)` on the fresh cell `nx` -/
+def mkLit (fuel : Nat) (h : Heap H) (nx : Nat) (txt : String) : Option (Heap H × Nat × Id) :=
+  match opSet fuel (opNew h nx "literal" true) nx "this" (.leaf (.str txt)) none true with
+  | none => none
+  | some h1 =>
+    match opSet fuel h1 nx "is_string" (.leaf (.bool false)) none true with
+    | none => none
+    | some h2 => some (h2, nx + 1, nx)
+
+def builtinFun (fuel : Nat) (name : String) : UserFun H := fun h nx n =>
+  let inList := (h n).index.isSome
+  match name with
+  | "lit" =>
+    if (h n).cls = "column" then (mkLit fuel h nx "0").map (fun (h1, nx1, l) => (h1, nx1, Value.node l))
+    else some (h, nx, .node n)
+  | "wrap" =>
+    if (h n).cls = "literal" then
+      match mkLit fuel h nx "7" with
+      | none => none
+      | some (h1, nx1, l) =>
+        match opSet fuel (opNew h1 nx1 "paren" false) nx1 "this" (.node l) none true with
+        | none => none
+        | some h2 => some (h2, nx1 + 1, .node nx1)
+    else some (h, nx, .node n)
+  | "drop" => if (h n).cls = "literal" ∧ inList then some (h, nx, .none) else some (h, nx, .node n)
+  | "dup" =>
+    if (h n).cls = "literal" ∧ inList then
+      match mkLit fuel h nx "8" with
+      | none => none
+      | some (h1, nx1, a) =>
+        match mkLit fuel h1 nx1 "9" with
+        | none => none
+        | some (h2, nx2, b) => some (h2, nx2, .list [.node a, .node b])
+    else some (h, nx, .node n)
+  | "mut" =>
+    if (h n).cls = "paren" then
+      match mkLit fuel h nx "5" with
+      | none => none
+      | some (h1, nx1, l) =>
+        match opSet fuel h1 n "this" (.node l) none true with
+        | none => none
+        | some h2 => some (h2, nx1, .node n)
+    else some (h, nx, .node n)
+  | _ => some (h, nx, .node n)
+
+/-! ### `__deepcopy__` — the real iterative algorithm
+
+  ```
+  root = self.__class__();  stack = [(self, root)]
+  while stack:
+      node, copy = stack.pop()
+      (comments / _type / _meta are deep-copied: not modelled)
+      if node._hash is not None: copy._hash = node._hash
+      for k, vs in node.args.items():
+          if isinstance(vs, Expr):  stack.append((vs, vs.__class__()));  copy.set(k, stack[-1][-1])
+          elif type(vs) is list:
+              copy.args[k] = []
+              for v in vs:
+                  if isinstance(v, Expr):  stack.append((v, v.__class__()));  copy.append(k, stack[-1][-1])
+                  else:                    copy.append(k, v)
+          else: copy.args[k] = vs
+  ```
+  The stack is a list with its top at the head; fresh cells are taken from the counter `nx`. `copy.set` / `copy.append` are
+  the real `opSet` / `opAppend` (with their invalidation loops); `copy.args[k] = …` is the plain dict assignment. -/
+
+/-- `copy.args[k] = a` -/
+def assignArg (h : Heap H) (c : Id) (k : String) (a : Arg) : Heap H := setArgs h c (setKey k a (h c).args)
+
+def dcItems (fuel : Nat) (c : Id) (k : String) :
+    Heap H → Nat → List (Id × Id) → List Item → Option (Heap H × Nat × List (Id × Id))
+  | h, nx, st, [] => some (h, nx, st)
+  | h, nx, st, .leaf s :: r =>
+    match opAppend fuel h c k (.leaf s) with
+    | some h1 => dcItems fuel c k h1 nx st r
+    | none => none
+  | h, nx, st, .node v :: r =>
+    match opAppend fuel (opNew h nx (h v).cls (h v).raw) c k (.node nx) with
+    | some h1 => dcItems fuel c k h1 (nx + 1) ((v, nx) :: st) r
+    | none => none
+
+def dcArgs (fuel : Nat) (c : Id) :
+    Heap H → Nat → List (Id × Id) → List (String × Arg) → Option (Heap H × Nat × List (Id × Id))
+  | h, nx, st, [] => some (h, nx, st)
+  | h, nx, st, (k, .leaf s) :: r => dcArgs fuel c (assignArg h c k (.leaf s)) nx st r
+  | h, nx, st, (k, .one v) :: r =>
+    match opSet fuel (opNew h nx (h v).cls (h v).raw) c k (.node nx) none true with
+    | some h1 => dcArgs fuel c h1 (nx + 1) ((v, nx) :: st) r
+    | none => none
+  | h, nx, st, (k, .many items) :: r =>
+    match dcItems fuel c k (assignArg h c k (.many [])) nx st items with
+    | some (h1, nx1, st1) => dcArgs fuel c h1 nx1 st1 r
+    | none => none
+
+/-- one iteration of the `while stack` loop for the popped pair `(n, c)` -/
+def dcVisit (fuel : Nat) (h : Heap H) (nx : Nat) (st : List (Id × Id)) (n c : Id) :
+    Option (Heap H × Nat × List (Id × Id)) :=
+  let h1 := match (h n).hash with
+    | some x => setHash h c (some x)
+    | none => h
+  dcArgs fuel c h1 nx st (h n).args
+
+def dcLoop (fuel : Nat) : Nat → Heap H → Nat → List (Id × Id) → Option (Heap H × Nat)
+  | 0, _, _, _ => none
+  | _ + 1, h, nx, [] => some (h, nx)
+  | f + 1, h, nx, (n, c) :: st =>
+    match dcVisit fuel h nx st n c with
+    | some (h1, nx1, st1) => dcLoop fuel f h1 nx1 st1
+    | none => none
+
+/-- `n.copy()` into the fresh cells `base, base+1, …`; returns the heap, the next free id and the copy's root -/
+def opDeepcopy (fuel : Nat) (h : Heap H) (n : Id) (base : Nat) : Option (Heap H × Nat × Id) :=
+  match dcLoop fuel fuel (opNew h base (h n).cls (h n).raw) (base + 1) [(n, base)] with
+  | some (h', nx) => some (h', nx, base)
+  | none => none
+
 /-! ### histories -/
 
 inductive Op where
@@ -490,6 +746,30 @@ inductive HT where
 
 def freeHash : HashFns HT :=
   { init := .init, mixS := .mixS, mixH := .mixH, mixK := .mixK, lower := String.toLower }
+
+/-! ### the explicit normal form compared by `==`
+
+  `absNorm lower fuel h n` is the NORMALISED structure of the tree below `n`, as a term:
+  `init cls` followed, for the arg keys in sorted order, by one item per retained value —
+    * non-raw classes: `None`/`False` args are dropped, strings are lower-cased (`mixS k (lower s)`), a child contributes
+      its own normal form (`mixH k child`), a list contributes one item per element in order, a `None`/`False` element
+      keeps its position as `mixK k`;
+    * raw-arg classes (`Literal`, `Identifier`): falsy args are dropped, other values are kept verbatim.
+  It ignores ids, back pointers and every `_hash` cache. -/
+abbrev Norm := HT
+
+def normFns (lower : String → String) : HashFns Norm :=
+  { init := .init, mixS := .mixS, mixH := .mixH, mixK := .mixK, lower := lower }
+
+def absNorm (lower : String → String) (fuel : Nat) (h : Heap H) (n : Id) : Option Norm :=
+  recompute (normFns lower) fuel (fun i => { (h i) with hash := none }) n
+
+/-- interpretation of a normal form in a hash algebra (what `hash()` computes from it) -/
+def HT.eval (F : HashFns H) : HT → H
+  | .init c => F.init c
+  | .mixS t k s => F.mixS (HT.eval F t) k s
+  | .mixH t k x => F.mixH (HT.eval F t) k (HT.eval F x)
+  | .mixK t k => F.mixK (HT.eval F t) k
 
 end
 
